@@ -783,6 +783,18 @@ impl SrtlaConnection {
         self.silence_pulls
     }
 
+    /// Refresh the per-link liveness timeout from the runtime configuration.
+    ///
+    /// Selection refreshes it on every pass, but an idle sender (no client
+    /// packets, hence no scheduling decisions) or a link just added by a reload
+    /// would otherwise keep the built-in default and be torn down earlier (or
+    /// later) than configured. Housekeeping calls this before it evaluates
+    /// `is_timed_out`.
+    #[inline]
+    pub fn set_conn_timeout_ms(&mut self, ms: u64) {
+        self.conn_timeout_ms = ms;
+    }
+
     /// Whether this link has gone silent past its liveness timeout
     /// (`conn_timeout_ms`, default `CONN_TIMEOUT`; runtime-tunable so the
     /// window can scale with the receiver's latency budget).
